@@ -5,6 +5,7 @@ import (
 	"flag"
 	"fmt"
 	"os"
+	"os/exec"
 	"path/filepath"
 	"regexp"
 	"sort"
@@ -39,6 +40,10 @@ type KnownFinding struct {
 	Commit     string `json:"commit,omitempty"`
 	What       string `json:"what"`
 	Witness    string `json:"witness,omitempty"`
+	// NoObligation: a defect inside the property's scope that no obligation of the
+	// contracts expresses (found by reading / by an end-to-end run); it is reported on
+	// every run as long as it is listed open, and its witness is replayed.
+	NoObligation bool `json:"no_obligation,omitempty"`
 }
 
 type claimSet struct {
@@ -299,6 +304,25 @@ func cmdCheck(args []string) {
 			obs = append(obs, ev)
 		}
 	}
+	// open findings that no obligation expresses: reported while listed; witness replayed
+	var witnessNotes []string
+	for i, k := range known {
+		if k.Property != *prop || k.Status != "open" {
+			continue
+		}
+		if k.NoObligation {
+			findingSeen[i] = true
+			fmt.Printf("KNOWN-FINDING: property=%s %s: %s\n", *prop, k.Obligation, k.What)
+		}
+		if strings.HasPrefix(k.Witness, "gotest:") {
+			ok, out := replayGoTestWitness(*repo, *verif, k.Witness)
+			note := fmt.Sprintf("witness %s: reproduces=%v", k.Witness, ok)
+			witnessNotes = append(witnessNotes, note)
+			if !ok {
+				fmt.Printf("NOTE property=%s witness of open finding %q did not reproduce: %s\n", *prop, k.Obligation, truncate(out, 300))
+			}
+		}
+	}
 	// open findings whose obligation discharges now
 	for i, k := range known {
 		if k.Property == *prop && k.Status == "open" && !findingSeen[i] {
@@ -340,6 +364,7 @@ func cmdCheck(args []string) {
 		"undecided":                undecidedNotes,
 		"contract_files":           P.cs.Files,
 		"remainder_not_decided":    cfg.Notes,
+		"known_finding_witnesses":  witnessNotes,
 	}
 	writeEvidence(*verif, *prop, *tier, seed, t0, cov, samples, asm, cfg, violations, []int{nClaimed, nDischarged})
 	fmt.Printf("property=%s tier=%s functions=%d claimed=%d discharged=%d violations=%d wall=%.1fs\n", *prop, *tier, len(fns), nClaimed, nDischarged, violations, time.Since(t0).Seconds())
@@ -425,4 +450,31 @@ func writeEvidence(verif, prop, tier string, seed int, t0 time.Time, cov map[str
 	os.MkdirAll(filepath.Join(verif, "evidence"), 0o755)
 	data, _ := json.MarshalIndent(ev, "", " ")
 	os.WriteFile(filepath.Join(verif, "evidence", prop+".json"), data, 0o644)
+}
+
+// replayGoTestWitness runs a stored Go test against the real package through an
+// overlay (nothing is written into the repository). Format:
+//
+//	gotest:<package dir>:<file under /verif>:<TestName>
+//
+// The witness reproduces the finding when the test FAILS.
+func replayGoTestWitness(repo, verif, w string) (bool, string) {
+	parts := strings.SplitN(w, ":", 4)
+	if len(parts) != 4 {
+		return false, "bad witness spec"
+	}
+	pkg, file, test := parts[1], parts[2], parts[3]
+	tmp, err := os.MkdirTemp("", "gocv-witness-")
+	if err != nil {
+		return false, err.Error()
+	}
+	defer os.RemoveAll(tmp)
+	ov := map[string]map[string]string{"Replace": {filepath.Join(repo, pkg, "zz_verif_witness_test.go"): filepath.Join(verif, file)}}
+	data, _ := json.Marshal(ov)
+	ovf := filepath.Join(tmp, "ov.json")
+	os.WriteFile(ovf, data, 0o644)
+	cmd := exec.Command("go", "test", "-overlay", ovf, "-vet=off", "-count=1", "-timeout", "120s", "-run", "^"+test+"$", "./"+pkg+"/")
+	cmd.Dir = repo
+	out, err := cmd.CombinedOutput()
+	return err != nil && strings.Contains(string(out), "--- FAIL"), string(out)
 }
